@@ -89,6 +89,61 @@ func (p *Sweep1After) Pick(s *vos.Sched, r []*vos.Proc) *vos.Proc {
 	return a
 }
 
+// PingPong: A runs to its op K1, B runs to its op J, A continues to its op K2 (> K1), then B
+// finishes, then A finishes (two processes alternating twice).
+type PingPong struct {
+	A, B       int
+	K1, J, K2  int
+	stage      int
+	Effective  bool // all three pauses took effect
+}
+
+func (p *PingPong) Name() string {
+	return fmt.Sprintf("pingpong(A=p%d@%d, B=p%d@%d, A@%d)", p.A, p.K1, p.B, p.J, p.K2)
+}
+func (p *PingPong) Pick(s *vos.Sched, r []*vos.Proc) *vos.Proc {
+	var a, b *vos.Proc
+	var others []*vos.Proc
+	for _, x := range r {
+		switch x.ID {
+		case p.A:
+			a = x
+		case p.B:
+			b = x
+		default:
+			others = append(others, x)
+		}
+	}
+	if p.stage == 0 {
+		if a != nil && a.NOps() < p.K1-1 {
+			return a
+		}
+		p.stage = 1
+	}
+	if p.stage == 1 {
+		if b != nil && b.NOps() < p.J-1 {
+			return b
+		}
+		p.stage = 2
+	}
+	if p.stage == 2 {
+		if a != nil && a.NOps() < p.K2-1 {
+			return a
+		}
+		if a != nil && b != nil {
+			p.Effective = true
+		}
+		p.stage = 3
+	}
+	if b != nil {
+		return b
+	}
+	if a != nil {
+		return a
+	}
+	return others[0]
+}
+
 // Sweep2: A paused before op KA, then B paused before op KB, then the rest, then B, then A.
 type Sweep2 struct {
 	A, KA, B, KB int
